@@ -310,5 +310,5 @@ def check(model, rep, tier):
     purity_clause(model, rep, funcs)
     # a binned batch loader loads through per-tomogram loaders rebuilt from it: they must inherit its (binned) scale and every other setting
     from .generic import rebuild_ctor_obligations, functions_in
-    rebuild_ctor_obligations(model, rep, functions_in(model, ["acryo/loader/_batch.py"]), "scale")
+    rebuild_ctor_obligations(model, rep, functions_in(model, ["acryo/loader/_batch.py"]), "scale", only=("scale",))
     rep.floor("CTOR", 1, "(LoaderAccessor rebuilds per-tomogram loaders from the batch loader, directly or in one shared helper)")
